@@ -89,7 +89,7 @@ def wchoice(rng, pairs):
 
 
 # ------------------------------------------------------------------ AST helpers
-PREC = {"lit": 0, "litf": 0, "var": 0, "svar": 0, "paren": 0, "cast": 0, "pow": 1, "neg": 2, "not": 2,
+PREC = {"lit": 0, "litf": 0, "var": 0, "svar": 0, "glob": 0, "call": 0, "paren": 0, "cast": 0, "pow": 1, "neg": 2, "not": 2,
         "cmp": 5, "and": 6, "or": 6}
 
 
@@ -136,7 +136,7 @@ def anchored(e):
     """is the type of e fixed by e itself (a variable, a cast, a boolean operator), so that the
     analyzer cannot default its literals to i64 / f64?"""
     k = e["k"]
-    if k in ("var", "svar", "cast", "cmp", "and", "or", "not"):
+    if k in ("var", "svar", "glob", "call", "cast", "cmp", "and", "or", "not"):
         return True
     if k in ("paren", "neg"):
         return anchored(e["e"])
@@ -198,6 +198,10 @@ def first_leaf_hint_positions(e, hint, out):
         first_leaf_hint_positions(e["b"], hint, out)
     elif k == "cast":
         first_leaf_hint_positions(e["e"], e["t"], out)
+    elif k == "call":
+        first_leaf_hint_positions(e["a"], e["ty"], out)
+        if e["b"] is not None:
+            first_leaf_hint_positions(e["b"], e["ty"], out)
 
 
 def fix_hints(rng, e, hint, keep_leak):
@@ -221,20 +225,46 @@ def fix_hints(rng, e, hint, keep_leak):
     return e
 
 
+VBASE = 100000      # placeholder indices of helper parameters while a program is being generated
+
+
+class TyTable(list):
+    """types by local index; indices >= VBASE are the (virtual) parameters of helper functions"""
+
+    def __init__(self, xs):
+        list.__init__(self, xs)
+        self.virt = {}
+
+    def __getitem__(self, i):
+        if isinstance(i, int) and i >= VBASE:
+            return self.virt[i]
+        return list.__getitem__(self, i)
+
+
+GLOB_I = [-40, -5, -1, 0, 3, 7, 100, -128, 127, -1000]
+GLOB_F = ["-2", "-2.5", "0.0", "1.5", "3", "-0.5", "-7", "2.5", "-1.0", "10"]
+
+
 class Gen:
     def __init__(self, rng, params, known_rate=1.0):
         self.rng = rng
-        self.tys = list(params)       # type of every local index
+        self.tys = TyTable(params)    # type of every local index
+        self.globals = []             # global constants: {"t", "text", "z", "typed"}
+        self.helpers = []             # helper functions: {"t", "dtext", "d", "p", "q", "body"}
         self.known_rate = known_rate
         self.loop_rate = 0.0
         self.lvs = []                 # (index, type) of the enclosing loops' variables / counters
         self.svars = set()            # indices of stateful variables
+        self.acc = None               # index of the accumulator of programs with loops
 
     def vars_of(self, scope, t):
         return [i for i in scope if self.tys[i] == t]
 
     def leaf(self, t, scope):
         rng = self.rng
+        gs = [k for k, g in enumerate(self.globals) if g["t"] == t]
+        if gs and rng.random() < 0.25:
+            return {"k": "glob", "g": rng.choice(gs), "ty": t}
         vs = self.vars_of(scope, t)
         x = rng.random()
         if vs and x < 0.62:
@@ -288,11 +318,19 @@ class Gen:
         opts = [("arith", 46), ("neg", 6), ("cast", 10), ("pow", 4), ("leaf", 10)]
         if t == "u8":
             opts += [("bool", 60)]
+        hs = [k for k, h in enumerate(self.helpers) if h["t"] == t and h.get("done")]
+        if hs:
+            opts += [("call", 30)]
         k = wchoice(rng, opts)
         if k == "leaf":
             return self.leaf(t, scope)
         if k == "bool":
             return self.bool_expr(depth, scope)
+        if k == "call":
+            h = rng.choice(hs)
+            a = fix_hints(rng, self.expr(t, depth - 1, scope), t, False)
+            b = fix_hints(rng, self.expr(t, depth - 1, scope), t, False) if rng.random() < 0.5 else None
+            return {"k": "call", "h": h, "a": a, "b": b, "ty": t}
         if k == "arith":
             ops = "+-*/%" if is_int(t) else "+-*/"
             if not is_int(t) and rng.random() < 0.02:
@@ -405,7 +443,8 @@ class Gen:
             form = rng.choice([1, 1, 2, 2, 3, 3])
             vs = [v for v in scope if self.tys[v] == t]
             if vs and rng.random() < 0.4:
-                stop = {"k": "arith", "op": "%", "a": {"k": "var", "i": rng.choice(vs), "ty": t},
+                vi = rng.choice(vs)
+                stop = {"k": "arith", "op": "%", "a": {"k": "svar" if vi in self.svars else "var", "i": vi, "ty": t},
                         "b": self.small(t, 2, 6), "ty": t}
             else:
                 stop = self.small(t, 0, 7)
@@ -502,6 +541,10 @@ class Gen:
                 out += sts
             elif nest < 2:
                 out.append(self.if_chain(ret, depth, scope, nest, loops, prot))
+                if loops and self.acc is not None and rng.random() < 0.8:
+                    # statements after the chain must not run after a break / continue inside it
+                    out.append({"k": "compound", "i": self.acc, "op": "+",
+                                "e": self.small(self.tys[self.acc], 1, 9)})
         z = rng.random()
         if must_return:
             out.append({"k": "return", "e": self.top_expr(ret, depth, scope, None)})
@@ -516,7 +559,7 @@ SINIT = {"f": ["1.0", "2.5", "0.5", "2.0", "1.5", "0.0"], "i": [3, 2, 5, 1, 0, 4
 SSTEP = {"f": ["0.5", "1.0", "0.25", "1.25", "2.5"], "i": [1, 2, 3, 1]}
 
 
-def gen_prog(rng, known_rate=1.0, loops=None, state=None):
+def gen_prog(rng, known_rate=1.0, loops=None, state=None, consts=None):
     if state is None:
         state = rng.random() < 0.22
     np_ = rng.choice([1, 2, 2, 2, 3])
@@ -535,6 +578,42 @@ def gen_prog(rng, known_rate=1.0, loops=None, state=None):
     if state and rng.random() < 0.7:
         ret = svt[0]
     g = Gen(rng, params, known_rate)
+    if consts is None:
+        consts = rng.random() < 0.3
+    if consts:
+        # global constants (negative / zero / positive, integer and float, an integer literal on a
+        # float type) and helper functions with a default value for their second parameter
+        def constant(t):
+            if is_int(t):
+                v = rng.choice(GLOB_I + [imin(t), imax(t)])
+                v = max(imin(t), min(imax(t), v))
+                if v == -(1 << 63):
+                    v += 1
+                return str(v), v
+            txt = rng.choice(GLOB_F)
+            return txt, fbits(t, float(txt))
+        for _ in range(rng.choice([0, 1, 2, 3])):
+            t = rng.choice(params + [wchoice(rng, TYPE_W)])
+            txt, z = constant(t)
+            typed = not ((t == "i64" and rng.random() < 0.4) or (t == "f64" and "." in txt and rng.random() < 0.4))
+            g.globals.append({"t": t, "text": txt, "z": z, "typed": typed})
+        for k in range(rng.choice([0, 1, 1, 2])):
+            t = rng.choice(params + [wchoice(rng, TYPE_W)])
+            txt, z = constant(t)
+            p_, q_ = VBASE + 2 * k, VBASE + 2 * k + 1
+            g.tys.virt[p_] = t
+            g.tys.virt[q_] = t
+            h = {"t": t, "dtext": txt, "d": z, "p": p_, "q": q_, "body": None}
+            g.helpers.append(h)
+            h["body"] = g.top_expr(t, rng.choice([1, 2, 2]), [p_, q_], None)
+            if rng.random() < 0.85:
+                # the second parameter (the one with the default) must matter
+                op = rng.choice("+-*") if is_int(t) else rng.choice("+-*")
+                old = h["body"]
+                h["body"] = fix_hints(rng, {"k": "arith", "op": op,
+                                            "a": fit(old, 4 if op in "+-" else 3),
+                                            "b": {"k": "var", "i": q_, "ty": t}, "ty": t}, None, False)
+            h["done"] = True
     if loops is None:
         loops = rng.random() < (0.4 if not state else 0.2)
     g.loop_rate = 0.30 if loops else 0.0
@@ -577,7 +656,20 @@ def gen_prog(rng, known_rate=1.0, loops=None, state=None):
             else:
                 th = [{"k": "sassign", "i": i, "e": dict(zero)}]
             pre.append({"k": "if", "c": cond, "th": th, "el": None})
-    body, _ = g.block(ret, depth, scope, 0, True)
+    if loops and not svt and rng.random() < 0.75:
+        # an accumulator that records which parts of the loop bodies ran; it is returned
+        ta = rng.choice(["i64", "i64", "i32", "u32"])
+        ret = ta
+        a = g.new_local(ta)
+        g.acc = a
+        pre.append({"k": "decl", "i": a, "t": ta, "e": {"k": "lit", "t": ta, "v": 0, "ty": ta}, "infer": False})
+        scope.append(a)
+    body, _ = g.block(ret, depth, scope, 0, True, 0, {g.acc} if g.acc is not None else ())
+    if g.acc is not None:
+        me = {"k": "var", "i": g.acc, "ty": ret}
+        old = body[-1]["e"]
+        body[-1]["e"] = me if (rng.random() < 0.5 or prec(old) > 3) else \
+            fix_hints(rng, {"k": "arith", "op": "+", "a": me, "b": old, "ty": ret}, None, False)
     if svt and ret == svt[0] and rng.random() < 0.75:
         # make the persisted value observable: return it (possibly combined with something else)
         me = {"k": "svar", "i": np_, "ty": ret}
@@ -587,7 +679,30 @@ def gen_prog(rng, known_rate=1.0, loops=None, state=None):
         else:
             body[-1]["e"] = {"k": "arith", "op": "+", "a": me, "b": old, "ty": ret}
             body[-1]["e"] = fix_hints(rng, body[-1]["e"], None, False)
-    return {"params": params, "locals": g.tys[np_:], "ret": ret, "body": pre + body}
+    prog = {"params": params, "locals": list(g.tys[np_:]), "ret": ret, "body": pre + body}
+    if g.globals or g.helpers:
+        # helper parameters get the indices after the real locals
+        nreal = len(g.tys)
+        for h in g.helpers:
+            h.pop("done", None)
+
+        def remap(x):
+            if isinstance(x, dict):
+                if x.get("k") in ("var", "svar") and x["i"] >= VBASE:
+                    x["i"] = nreal + (x["i"] - VBASE)
+                for v in x.values():
+                    remap(v)
+            elif isinstance(x, list):
+                for v in x:
+                    remap(v)
+        remap(prog["body"])
+        for h in g.helpers:
+            remap(h["body"])
+            h["p"], h["q"] = nreal + (h["p"] - VBASE), nreal + (h["q"] - VBASE)
+        prog["globals"] = g.globals
+        prog["helpers"] = g.helpers
+        prog["virt"] = [t for h in g.helpers for t in (h["t"], h["t"])]
+    return prog
 
 
 def gen_call_args(rng, f, n):
@@ -609,7 +724,11 @@ def gen_call_args(rng, f, n):
 
 # ------------------------------------------------------------------ printers: Arc source
 def vname(f, i):
-    return ("p%d" % i) if i < len(f["params"]) else ("v%d" % i)
+    if i < len(f["params"]):
+        return "p%d" % i
+    if i >= len(f["params"]) + len(f["locals"]):
+        return "a%d" % i          # parameter of a helper function
+    return "v%d" % i
 
 
 def src_expr(f, e):
@@ -620,6 +739,11 @@ def src_expr(f, e):
         return e["text"]
     if k in ("var", "svar"):
         return vname(f, e["i"])
+    if k == "glob":
+        return "G%d" % e["g"]
+    if k == "call":
+        args = [src_expr(f, e["a"])] + ([src_expr(f, e["b"])] if e["b"] is not None else [])
+        return "h%d(%s)" % (e["h"], ", ".join(args))
     if k == "paren":
         return "(" + src_expr(f, e["e"]) + ")"
     if k == "neg":
@@ -692,8 +816,15 @@ def src_block(f, b, ind):
 
 
 def src_func(f):
+    out = []
+    for k, g in enumerate(f.get("globals") or []):
+        out.append("G%d %s:= %s" % (k, (g["t"] + " ") if g["typed"] else "", g["text"]))
+    for k, h in enumerate(f.get("helpers") or []):
+        out.append("func h%d(%s %s, %s %s = %s) %s {\n    return %s\n}" % (
+            k, vname(f, h["p"]), h["t"], vname(f, h["q"]), h["t"], h["dtext"], h["t"], src_expr(f, h["body"])))
     ps = ", ".join("p%d %s" % (i, t) for i, t in enumerate(f["params"]))
-    return "func f(%s) %s {\n%s\n}\n" % (ps, f["ret"], "\n".join(src_block(f, f["body"], 1)))
+    out.append("func f(%s) %s {\n%s\n}\n" % (ps, f["ret"], "\n".join(src_block(f, f["body"], 1))))
+    return "\n".join(out)
 
 
 # ------------------------------------------------------------------ printers: Coq terms
@@ -719,6 +850,14 @@ def c_expr(e):
         return "(EVar %s)" % cnat(e["i"])
     if k == "svar":
         return "(ESVar %s)" % cnat(e["i"])
+    if k == "glob":
+        g = _cur["globals"][e["g"]]
+        return "(EGlob (%s) %s)" % (c_ty(g["t"]), cZ(g["z"]))
+    if k == "call":
+        h = _cur["helpers"][e["h"]]
+        return "(ECall %s (%s) %s %s %s %s %s %s)" % (
+            cnat(e["h"]), c_ty(h["t"]), cZ(h["d"]), cnat(h["p"]), cnat(h["q"]), c_expr(h["body"]),
+            c_expr(e["a"]), "None" if e["b"] is None else "(Some %s)" % c_expr(e["b"]))
     if k == "paren":
         return "(EParen %s)" % c_expr(e["e"])
     if k == "neg":
@@ -789,10 +928,17 @@ def c_stmt(s):
     raise ValueError(k)
 
 
+_cur = {"globals": [], "helpers": []}
+
+
 def c_func(f):
-    return "{| f_params := %s; f_locals := %s; f_ret := %s; f_body := %s |}" % (
+    _cur["globals"] = f.get("globals") or []
+    _cur["helpers"] = f.get("helpers") or []
+    hs = clist(["(%s, %s, %s, %s, %s)" % (c_ty(h["t"]), cZ(h["d"]), cnat(h["p"]), cnat(h["q"]), c_expr(h["body"]))
+                for h in _cur["helpers"]])
+    return ("{| f_params := %s; f_locals := %s; f_ret := %s; f_body := %s; f_virt := %s; f_helpers := %s |}" % (
         clist([c_ty(t) for t in f["params"]]), clist([c_ty(t) for t in f["locals"]]), c_ty(f["ret"]),
-        c_block(f["body"]))
+        c_block(f["body"]), clist([c_ty(t) for t in (f.get("virt") or [])]), hs))
 
 
 # ------------------------------------------------------------------ arguments
@@ -881,7 +1027,8 @@ def gen_soup(rng):
 
 # ------------------------------------------------------------------ plug-in interface
 def mk_case(rng, f, nargs):
-    return {"kind": "prog", "prog": f, "src": src_func(f), "fn": "f", "args": gen_call_args(rng, f, nargs)}
+    return {"kind": "prog", "prog": f, "src": src_func(f), "fn": "f", "args": gen_call_args(rng, f, nargs),
+            "extra_fns": ["h%d" % k for k in range(len(f.get("helpers") or []))]}
 
 
 def gen_cases(rng, tier, n):
@@ -955,7 +1102,8 @@ def walk_kinds(b, acc):
         elif k == "cast":
             acc.append("cast:%s->%s" % (b["e"]["ty"], b["t"]))
         elif k in ("cmp", "and", "or", "not", "neg", "pow", "if", "decl", "assign", "compound", "return", "elif", "else",
-                   "for", "loop", "range", "break", "continue", "sdecl", "sassign", "scompound", "svar"):
+                   "for", "loop", "range", "break", "continue", "sdecl", "sassign", "scompound", "svar",
+                   "glob", "call"):
             acc.append(k)
         for v in b.values():
             walk_kinds(v, acc)
